@@ -88,6 +88,9 @@ fn pair_oracle(c: &Pair) -> Verdict {
     // (a non-canonical operand is not skipped here: two values with the same count must still be equal
     // and ordered by their count, whatever constructor produced them)
     let (ca, cb) = (count(a), count(b));
+    // whatever the constructor route, the value built must carry the intended count: otherwise two different
+    // intended values could collapse and compare equal (reported here as well as by C02)
+    ensure!(ca == c.a.intended() && cb == c.b.intended(), "constructor route {:?} built counts {} / {} for intended {} / {}", c.route, ca, cb, c.a.intended(), c.b.intended());
     let ord = ca.cmp(&cb);
     let desc = format!("a={:?} (count {}) b={:?} (count {})", a.to_parts(), ca, b.to_parts(), cb);
     ensure!(lib!(a.cmp(&b)) == ord, "cmp: {} gives {:?}, want {:?}", desc, a.cmp(&b), ord);
